@@ -313,7 +313,8 @@ DEC_FORMS = ["5.4", "5.", ".5", "-.5", "+1.5", "1.5e3", ".13E10", "2.5e-3", "0.0
 BARE_STRINGS = ["Foo", "foo_bar9", "/Path/To/123.txt", "C:\\path\\to\\thing", "A+/-B", "This is a string.", "two words", "5abc", "007x",
                 "1.50abc", "http://example.org/a.b", "caf\u00e9", "a.b.c", "x y z", "..\\rel\\p.csv", "data/file name.csv", "True", "a1:b2",
                 "True Color", "is False", "False/positives.csv", "x True y", "Truecolor", "TrueThreshold value", "\U0001f600 smile", "\u4e2d\u6587 name",
-                "Gr\u00f6\u00dfe 2", "A\u00f1o 2020", "\u00fcber 1.5", "Z\u00fcrich-2"]  # non-ASCII first letter, number at the end: one unquoted string
+                "Gr\u00f6\u00dfe 2", "A\u00f1o 2020", "\u00fcber 1.5", "Z\u00fcrich-2",
+                "Note: see appendix", "width : height", "lat :lon"]  # blanks next to a colon belong to the text  # non-ASCII first letter, number at the end: one unquoted string
 QUOTED_SYMBOLS = ["a", " ", '"', "'", "\\", "#", ",", "]", "=", "\u00e9", "\n"]
 QUOTED_NAMED = ["", "C:\\temp\\new.csv", "A+, \n", "He said \"hi\" to 'them'", "tab\there", "x" * 40, "[1, 2]", "key: value", "(a = b)", "\u20ac 5",
                 "ends with backslash\\", "# not a comment", "  padded  ", "5", "1.5", "True",
